@@ -29,9 +29,28 @@ type ordEval struct {
 	recv types.Object
 	par  types.Object
 	bad  string
+	// index mode: operands are <expr>[recv] and <expr>[par] (sort.Interface.Less)
+	index bool
 }
 
 func (e *ordEval) fieldOf(x ast.Expr) (string, int, bool) {
+	if e.index {
+		ix, ok := ast.Unparen(x).(*ast.IndexExpr)
+		if !ok {
+			return "", 0, false
+		}
+		name := types.ExprString(ix.X)
+		if s, ok := ast.Unparen(ix.X).(*ast.SelectorExpr); ok {
+			name = s.Sel.Name
+		}
+		switch objOf(e.fn, ix.Index) {
+		case e.recv:
+			return name, 0, true
+		case e.par:
+			return name, 1, true
+		}
+		return "", 0, false
+	}
 	s, ok := ast.Unparen(x).(*ast.SelectorExpr)
 	if !ok {
 		return "", 0, false
@@ -556,4 +575,65 @@ func checkExchange(r *Run, p *Prog) {
 		}
 	}
 	r.ObPath("C12.R2.exchange", "the initiator processes the peer's ack after a successful send", p.Position(once.Pos()), okOnce, why, path)
+}
+
+// decideIndexOrder evaluates a Less(i, j)-style function over all orderings of the named
+// slices' elements at i and j and compares with the lexicographic order on them.
+func decideIndexOrder(fn *FuncNode, slices []string) (bool, string) {
+	e := &ordEval{fn: fn, recv: paramObj(fn, 0), par: paramObj(fn, 1), index: true}
+	var diffs []string
+	var rec func(k int, c ordCase)
+	rec = func(k int, c ordCase) {
+		if k == len(slices) {
+			got, ret := e.stmts(fn.Body.List, c)
+			if e.bad != "" || !ret {
+				return
+			}
+			want := false
+			for _, s := range slices {
+				if c[s] < 0 {
+					want = true
+					break
+				}
+				if c[s] > 0 {
+					break
+				}
+			}
+			if got != want {
+				var d []string
+				for _, s := range slices {
+					d = append(d, s+sgn(c[s]))
+				}
+				diffs = append(diffs, fmt.Sprintf("(%s): returns %v, want %v", strings.Join(d, " "), got, want))
+			}
+			return
+		}
+		for _, v := range []int{-1, 0, 1} {
+			n := ordCase{}
+			for kk, vv := range c {
+				n[kk] = vv
+			}
+			n[slices[k]] = v
+			rec(k+1, n)
+		}
+	}
+	rec(0, ordCase{})
+	if e.bad != "" {
+		return false, e.bad
+	}
+	if len(diffs) > 0 {
+		if len(diffs) > 4 {
+			diffs = append(diffs[:4], fmt.Sprintf("... %d more", len(diffs)-4))
+		}
+		return false, strings.Join(diffs, "; ")
+	}
+	return true, fmt.Sprintf("equals the strict lexicographic order on (%s) for all %d orderings", strings.Join(slices, ", "), pow3(len(slices)))
+}
+
+func pow3(n int) int {
+	r := 1
+	for i := 0; i < n; i++ {
+		r *= 3
+	}
+	return r
 }
